@@ -120,6 +120,16 @@ CHECKS = {
         "vf/oracle/stubeval.py is the reference reading of stub text; no-op rewriter and one trace per function fix the handed-in type.",
         "6 C11",
     ),
+    "C12": (
+        "exploration",
+        "runtime monitoring: signature-comparison oracle (ast of the rendered stub vs inspect.signature of the live function) over generated modules traced for real",
+        "Generated modules with every function kind and parameter-kind pattern, defaults incl. None, names forcing line wrapping, classes two "
+        "levels deep, coroutine functions and generators; random subsets traced through the real trace_calls or constructed CallTraces; the "
+        "rendered module stub must parse, contain exactly the traced functions inside their classes, with the right decorator / async, the "
+        "same parameter names, kinds, order and default presence as the live function, and an unannotated receiver.",
+        "inspect.signature and ast are the reference.",
+        "6 C12",
+    ),
 }
 
 PENDING = {}
